@@ -423,7 +423,7 @@ impl<'a> GeneratorState<'a> {
                                     self.acc_in_use = true;
                                     return Ok(ExprType::A(signed));
                                 }
-                                return Ok(ExprType::Absolute(varname.clone(), true, offset + v.size as i32));
+                                return Ok(ExprType::Absolute(varname.clone(), true, offset.wrapping_add(v.size as i32)));
                             }
                             return Err(self.compiler_state.syntax_error("Incorrect right value for right shift operation on short (constant 8 only supported)", pos));
                         },
